@@ -200,3 +200,68 @@ theorem lookupSrc_get (xs : List Pair) (g : Int) : (lookupSrc canonGet xs g).toG
     cases hp : pAt xs low <;> simp [Outcome.toGet]
 
 end DV.C03
+
+namespace DV.C03
+open Src
+
+/-! ### round four: generic comparator, endResize statement order, renumberLocal loop, GlobalLookupIndexSet constructors -/
+
+/-- with the generic `LocalIndexComparator` (always false; TL = LocalIndex) the comparison is the model's `before` on
+pairs of equal attribute (the `NL` configurations have attribute 0 throughout) -/
+theorem beforeSrc_generic (x y : Pair) (h : x.l.attr = y.l.attr) : beforeSrc canonBefore .ff x y = before x y := by
+  simp only [beforeSrc, canonBefore, envPairs, BE.eval, IE.eval]
+  simp only [ilt, ieq, before, h, Nat.lt_irrefl, decide_false, Bool.and_false]
+
+def canonRenum : Renum := { start := 0, step := 1, value := .var .index }
+
+theorem renumSrc_canon : ∀ (xs : List Pair) (k : Nat), renumSrc canonRenum (k : Int) xs = renumFrom k xs
+  | [], _ => rfl
+  | p :: ps, k => by
+    have h := renumSrc_canon ps (k + 1)
+    simp only [renumSrc, renumFrom, canonRenum, IE.eval, envIndex, Int.toNat_natCast] at h ⊢
+    rw [← h]; rfl
+
+def canonTableAuto : TableCtor :=
+  { sizeInit := .num 0, foldMax := some (.var .locNo), cells := .add (.var .size) (.num 1),
+    sizeFinal := .add (.var .size) (.num 1), slot := .var .locNo }
+
+def canonTableSized : TableCtor :=
+  { sizeInit := .var .tsize, foldMax := none, cells := .var .size, sizeFinal := .var .size, slot := .var .locNo }
+
+theorem foldMaxSrc_canon : ∀ (xs : List Pair) (m : Nat), foldMaxSrc (.var .locNo) xs (m : Int) = (maxLocal xs m : Nat)
+  | [], _ => rfl
+  | p :: ps, m => by
+    have h := foldMaxSrc_canon ps (max m p.l.loc)
+    simp only [foldMaxSrc, maxLocal, IE.eval, envTable] at h ⊢
+    rw [← h]
+    congr 1
+    simp only [Int.max_def, Nat.max_def]
+    split <;> split <;> omega
+
+theorem fillSrc_canon : ∀ (xs : List Pair) (t : List (Option Pair)), fillSrc (.var .locNo) xs t = fillTable xs t
+  | [], _ => rfl
+  | p :: ps, t => by
+    simp only [fillSrc, fillTable, IE.eval, envTable, Int.toNat_natCast]
+    have : ¬ ((p.l.loc : Int) < 0) := by omega
+    simp only [this, if_false]
+    congr 1
+    funext t'
+    exact fillSrc_canon ps t'
+
+theorem tableSrc_auto (xs : List Pair) :
+    tableSrc canonTableAuto 0 xs = (lookupAuto xs).map fun t => (t, ((maxLocal xs 0 + 1 : Nat) : Int)) := by
+  have hm : foldMaxSrc (.var .locNo) xs 0 = ((maxLocal xs 0 : Nat) : Int) := foldMaxSrc_canon xs 0
+  simp only [tableSrc, canonTableAuto, IE.eval, envTable, lookupAuto]
+  rw [hm]
+  have h1 : ¬ (((maxLocal xs 0 : Nat) : Int) + 1 < 0) := by omega
+  have h2 : (((maxLocal xs 0 : Nat) : Int) + 1).toNat = maxLocal xs 0 + 1 := by omega
+  simp only [h1, if_false, h2, fillSrc_canon]
+  rfl
+
+theorem tableSrc_sized (xs : List Pair) (n : Nat) :
+    tableSrc canonTableSized n xs = (lookupSized xs n).map fun t => (t, (n : Int)) := by
+  simp only [tableSrc, canonTableSized, IE.eval, envTable, lookupSized]
+  have h1 : ¬ ((n : Int) < 0) := by omega
+  simp only [h1, if_false, Int.toNat_natCast, fillSrc_canon]
+
+end DV.C03
